@@ -30,6 +30,11 @@ impl World {
             self.drop_cc(cc, target, "an unused clone");
             return;
         };
+        self.set_slot_of_node(node, owner, slot, cc, target);
+    }
+
+    /// node.slot := cc, dropping whatever the slot held (`owner` is the object id of `node`).
+    pub fn set_slot_of_node(&self, node: &Node, owner: ObjId, slot: i64, cc: AnyCc, target: ObjId) {
         let res = {
             match node.store.try_borrow_mut() {
                 Err(_) => Err(cc),
@@ -143,6 +148,7 @@ impl World {
             (World::count(&m, o) == 0, World::in_fin_or_drop(&m), m.frames.iter().any(|f| f.collector), m.objs[o as usize].tainted)
         };
         let addr_before = payload_addr(&cc);
+        let buf_before: Option<Vec<usize>> = rust_cc::verif::buffer_walk(100_000).map(|w| w.members.iter().map(|s| s.box_addr).collect());
         let steps_before = self.stats.borrow().callbacks.values().sum::<u64>();
         let fin_before = with_cc!(&cc, c => compat::already_finalized(c));
         let box_addr = self.m.borrow().objs[o as usize].box_addr;
@@ -219,8 +225,11 @@ impl World {
                     t.roots[i] = Some(Box::new(cc));
                     m.root_obj[i] = Some(o);
                 }
+                let buf_after: Option<Vec<usize>> = rust_cc::verif::buffer_walk(100_000).map(|w| w.members.iter().map(|s| s.box_addr).collect());
                 if !same {
                     self.fail("O-UNWRAP.same", format!("try_unwrap on object {} returned Err with a different pointer", o));
+                } else if buf_before != buf_after {
+                    self.fail("O-UNWRAP.buffer", format!("a failed try_unwrap on object {} changed the buffer of possible cycle roots ({} -> {} members)", o, buf_before.map_or(0, |b| b.len()), buf_after.map_or(0, |b| b.len())));
                 } else if unique && !in_cb && !in_coll && !tainted {
                     self.fail("O-UNWRAP.unique", format!("try_unwrap returned Err for object {} although the pointer was unique and no collection / finalizer / destructor was running", o));
                 } else if fin_after != fin_before {
@@ -634,8 +643,8 @@ impl World {
                 if (x > y) != (u > v) { bad = Some("gt"); }
                 if (x >= y) != (u >= v) { bad = Some("ge"); }
                 if h(x) != h(u) { bad = Some("hash"); }
-                if format!("{:?}", x) != format!("{:?}", u) { bad = Some("Debug"); }
-                if format!("{}", x) != format!("{}", u) { bad = Some("Display"); }
+                if format!("{:?}", x) != format!("{:?}", u) || format!("{:#?}", x) != format!("{:#?}", u) || format!("{:10?}", x) != format!("{:10?}", u) { bad = Some("Debug"); }
+                if format!("{}", x) != format!("{}", u) || format!("{:7}", x) != format!("{:7}", u) || format!("{:<+6}", x) != format!("{:<+6}", u) || format!("{:*^9}", x) != format!("{:*^9}", u) || format!("{:05}", x) != format!("{:05}", u) { bad = Some("Display"); }
                 self.stats.borrow_mut().bump("forwarding_pair_int");
             }
             (AnyCc::KF(x), AnyCc::KF(y)) => {
@@ -646,8 +655,8 @@ impl World {
                 if (x <= y) != (u <= v) { bad = Some("le"); }
                 if (x > y) != (u > v) { bad = Some("gt"); }
                 if (x >= y) != (u >= v) { bad = Some("ge"); }
-                if format!("{:?}", x) != format!("{:?}", u) { bad = Some("Debug"); }
-                if format!("{}", x) != format!("{}", u) { bad = Some("Display"); }
+                if format!("{:?}", x) != format!("{:?}", u) || format!("{:#?}", x) != format!("{:#?}", u) { bad = Some("Debug"); }
+                if format!("{}", x) != format!("{}", u) || format!("{:9.2}", x) != format!("{:9.2}", u) || format!("{:+}", x) != format!("{:+}", u) || format!("{:<08.3}", x) != format!("{:<08.3}", u) { bad = Some("Display"); }
                 self.stats.borrow_mut().bump("forwarding_pair_float");
             }
             _ => {}
